@@ -122,7 +122,7 @@ CHECKS = {
     "C20": dict(
         level="exploration",
         text="LIMITED claim: framing and sizes. Values of the built-in serializable types (integers, floats incl. signed zero and "
-             "infinities, bool, usize, strings with 1-4 byte UTF-8, byte vectors, nested vectors, PathBuf, SocketAddr, IpAddr, "
+             "infinities, bool, usize, strings with 1-4 byte UTF-8, byte vectors, nested vectors, PathBuf, SocketAddr (v4, v6, v4-mapped), IpAddr, "
              "SystemTime before and after the epoch) and of a corpus of DbSerialize-derived types (named / tuple / unit structs, "
              "nested, enums with unit / tuple / struct / nested variants, vectors of zero-size elements) are serialized, measured and deserialized by the real "
              "code; each event carries the framing tree written by hand from the format rules. Codec.tla recomputes the size and the "
@@ -130,7 +130,9 @@ CHECKS = {
              "Size(tree), Framed(bytes, tree) and a successful round trip.",
         design="B.3.7, B.4 C20, A.6",
         note="leaf contents (scalar byte order, float bits, UTF-8) are opaque to TLC and decided only by the driver's round-trip "
-             "equality; DbValue / DbKeyValue / DbId / QueryId are opaque values (size = length, round trip); values are sampled",
+             "equality; DbValue (all nine variants, NaN / signed zero) / DbKeyValue / DbId / QueryId and the crate's own query types "
+             "(SearchQuery with nested conditions of every kind, Insert{Values,Nodes,Edges,Aliases,Index}Query, SelectValuesQuery, "
+             "RemoveQuery, QueryIds / QueryValues inside them) are opaque values (size = length, round trip); values are sampled",
         technique="TLA+ (TLC) evaluation of an independent framing / size oracle over recorded serializations",
         engine="vdb"),
     "C22": _db("A corpus of user types deriving agdb::DbType and agdb::DbElement (required + optional fields, optional only, plain; scalars, strings and byte arrays across the inline limit, bool, f64, "
